@@ -4,13 +4,13 @@ CONSTANTS
   H = 2
   Nodes <- Nodes3
   Seat <- Seat3
-  MaxRounds = 1
-  MaxReqs = 1
-  MaxDkgDeliver = 1
-  MaxRelayDeliver = 1
-  MaxBad = 0
-  MaxStops = 0
-  MaxViewMis = 1
+  MaxRounds = 2
+  MaxReqs = 2
+  MaxDkgDeliver = 2
+  MaxRelayDeliver = 2
+  MaxBad = 1
+  MaxStops = 2
+  MaxViewMis = 3
   Prompt = FALSE
   Agreement = TRUE
   DedupOn = TRUE
